@@ -120,6 +120,13 @@ H0 == [st |-> "data", tag |-> <<>>, end |-> FALSE, attrs |-> <<>>, an |-> <<>>, 
        self |-> FALSE, elem |-> <<>>, lang |-> "", sub |-> NoSub, tmp |-> <<>>, ret |-> "", sig |-> <<>>,
        alang |-> "", asub |-> NoSub, ent |-> <<>>, avs |-> <<>>]
 
+\* initial state for a file of the given format: a .js / .css / .json file is one stretch of JavaScript /
+\* CSS / JSON (modelled as raw content of an element whose end tag never comes)
+HInit(fmt) == CASE fmt = "JS" -> [H0 EXCEPT !.st = "raw", !.elem = <<1>>, !.lang = "js", !.sub = JS0]
+                [] fmt = "CSS" -> [H0 EXCEPT !.st = "raw", !.elem = <<1>>, !.lang = "css", !.sub = CSS0]
+                [] fmt = "JSON" -> [H0 EXCEPT !.st = "raw", !.elem = <<1>>, !.lang = "json", !.sub = JSON0]
+                [] OTHER -> H0
+
 Feed1(h, c) == IF h.lang \in {"", "data"} THEN h
                ELSE LET s2 == SubStep(h.lang, h.sub, c) IN
                     IF s2.o = <<>> THEN (IF s2 = h.sub THEN h ELSE [h EXCEPT !.sub = s2]) ELSE [h EXCEPT !.sub = s2, !.sig = @ \o s2.o]
@@ -392,6 +399,7 @@ HNorm(h) == [h EXCEPT !.sig = <<>>, !.attrs = <<>>, !.avs = <<>>, !.sub = SubNor
 \* structure signature of a whole document
 SigOfState(h) == [toks |-> h.sig \o HPending(h), fin |-> HClass(h)]
 Signature(s) == SigOfState(HRun(H0, s))
+SignatureF(fmt, s) == SigOfState(HRun(HInit(fmt), s))
 \* the same, resuming from the state h reached after the first p bytes of s
 RECURSIVE HRunRange(_, _, _, _)
 HRunRange(h, s, i, j) == IF i > j THEN h ELSE HRunRange(HDo(h, s[i]), s, i + 1, j)
